@@ -59,13 +59,13 @@ theorem magic_offset_neg_eq (offset : Int) : magic_offset_neg offset = magicOffN
 
 theorem magic_poslen_eq (n : Int) : magic_poslen n = magicPosLen n := by
   unfold magic_poslen magicPosLen
-  simp only [Int.fdiv_eq_ediv_of_nonneg _ (by decide : (0 : Int) ≤ 2)]
-  try omega
+  try simp only [Int.fdiv_eq_ediv_of_nonneg _ (by decide : (0 : Int) ≤ 2)]
+  first | done | omega
 
 theorem magic_neglen_eq (n : Int) : magic_neglen n = magicNegLen n := by
   unfold magic_neglen magicNegLen
-  simp only [Int.fdiv_eq_ediv_of_nonneg _ (by decide : (0 : Int) ≤ 2)]
-  try omega
+  try simp only [Int.fdiv_eq_ediv_of_nonneg _ (by decide : (0 : Int) ≤ 2)]
+  first | done | omega
 
 /-! k-t grid helpers (numpy float idioms `np.floor(a / b)`, `np.ceil(a / b)` translated as floor / ceiling division) -/
 
@@ -76,12 +76,12 @@ theorem kt_linear_eq (idx row : Int) (h : 0 ≤ row) : (kt_linear_x idx row, kt_
 theorem kt_phase_corrected_eq (phase ny : Int) : kt_phase_corrected phase ny = phase + halfUp ny := by
   unfold kt_phase_corrected halfUp
   simp only [Int.fdiv_eq_ediv_of_nonneg _ (by decide : (0 : Int) ≤ 2)]
-  omega
+  first | done | omega
 
 theorem kt_time_corrected_eq (time nt : Int) : kt_time_corrected time nt = time + halfUp nt := by
   unfold kt_time_corrected halfUp
   simp only [Int.fdiv_eq_ediv_of_nonneg _ (by decide : (0 : Int) ≤ 2)]
-  omega
+  first | done | omega
 
 theorem kt_trajectory_index_eq (phase time ny nt : Int) :
     kt_trajectory_index (kt_time_corrected time nt) (kt_phase_corrected phase ny) ny = trajIndex ny nt phase time := by
@@ -94,7 +94,7 @@ theorem kt_uniform_ph_ti_eq (ind : Int) (n nt : Nat) :
   unfold kt_uniform_ph kt_uniform_ti
   simp only [Int.fdiv_eq_ediv_of_nonneg _ (by decide : (0 : Int) ≤ 2), Int.fdiv_eq_ediv_of_nonneg _ (Int.natCast_nonneg n),
     Int.fmod_eq_emod_of_nonneg _ (Int.natCast_nonneg n)]
-  constructor <;> omega
+  constructor <;> (first | done | omega)
 
 theorem kt_inds_eq (ph ti : List Int) (n nt : Nat) :
     ktInds n nt ph ti = List.zipWith (fun p t => kt_uniform_inds p t n nt) ph ti ∧
